@@ -224,6 +224,67 @@ func c12Ops() []c12op {
 			}, 3)
 			return fmt.Sprint(hits)
 		}},
+		{"Element.MultiExp(20 points) with explicit NbTasks 1, 2 and 3", true, func(c *ipa.IPAConfig, seed int64, slot int) string {
+			pts := make([]banderwagon.Element, 20)
+			sc := make([]fr.Element, 20)
+			for i := range pts {
+				pts[i] = c.SRS[(i*3+slot)%256]
+				sc[i] = frFromBig(prfR(seed, "c12x", i+100*slot))
+			}
+			out := ""
+			for _, nb := range []int{1, 2, 3} {
+				var e banderwagon.Element
+				_, err := e.MultiExp(pts, sc, banderwagon.MultiExpConfig{NbTasks: nb, ScalarsMont: true})
+				out += elString(&e) + fmt.Sprint(err)
+			}
+			return out
+		}},
+		{"calls that end with an error, then the same calls on valid input", true, func(c *ipa.IPAConfig, seed int64, slot int) string {
+			out := ""
+			pts := []banderwagon.Element{c.SRS[slot], c.SRS[slot+1], c.SRS[slot+2]}
+			sc := []fr.Element{frFromBig(bi(3)), frFromBig(prfR(seed, "c12y", slot)), fr.One()}
+			var e banderwagon.Element
+			_, err := e.MultiExp(pts, sc[:2], banderwagon.MultiExpConfig{NbTasks: 2, ScalarsMont: true})
+			out += fmt.Sprint(err != nil)
+			_, err = e.MultiExp(pts, sc, banderwagon.MultiExpConfig{NbTasks: 2, ScalarsMont: true})
+			out += elString(&e) + fmt.Sprint(err)
+			// BatchNormalize of 40 elements with an un-normalisable one, then of 40 valid ones
+			mk := func(bad bool) []*banderwagon.Element {
+				l := make([]*banderwagon.Element, 40)
+				for i := range l {
+					v := reprOf(c.SRS[(i+slot)%256], reprProj)
+					l[i] = &v
+				}
+				if bad {
+					var z banderwagon.Element
+					l[17] = &z
+				}
+				return l
+			}
+			out += fmt.Sprint(banderwagon.BatchNormalize(mk(true)) != nil)
+			good := mk(false)
+			out += fmt.Sprint(banderwagon.BatchNormalize(good)) + elString(good[0]) + elString(good[39])
+			// a prover call with a polynomial that is too short, then the padded one
+			p := c12Fixture(c, seed)
+			_, err = ipa.CreateIPAProof(common.NewTranscript("ipa"), c, p.cm, p.a[:255], p.z)
+			out += fmt.Sprint(err != nil)
+			pr, err := ipa.CreateIPAProof(common.NewTranscript("ipa"), c, p.cm, p.a, p.z)
+			out += fmt.Sprintf("%x %v", sha256.Sum256(ipaProofBytes(&pr)), err)
+			// a verifier call on a malformed proof, then on the honest one
+			bad := ipa.IPAProof{L: p.proof.L[:7], R: p.proof.R, A_scalar: p.proof.A_scalar}
+			ok, err := ipa.CheckIPAProof(common.NewTranscript("ipa"), c, p.cm, bad, p.z, p.y)
+			out += fmt.Sprint(ok, err != nil)
+			ok, err = ipa.CheckIPAProof(common.NewTranscript("ipa"), c, p.cm, p.proof, p.z, p.y)
+			out += fmt.Sprint(ok, err)
+			// decoders
+			var x fr.Element
+			_, err = x.SetBytesLECanonical(bytes.Repeat([]byte{0xff}, 32))
+			var q banderwagon.Element
+			err2 := q.SetBytes(bytes.Repeat([]byte{0xff}, 32))
+			b := c.SRS[9+slot].Bytes()
+			err3 := q.SetBytes(b[:])
+			return out + fmt.Sprint(err != nil, err2 != nil, err3) + elString(&q)
+		}},
 		{"fp.SqrtPrecomp / bandersnatch.GetPointFromX (both roots)", false, func(c *ipa.IPAConfig, seed int64, slot int) string {
 			v := fpFromBig(bi(int64(1234567+slot) * int64(1234567+slot)))
 			x := fpFromBig(bi(int64(3 + 4*slot))) // 3 and 7 are abscissae of curve points
